@@ -17,7 +17,7 @@
          for every transport { transport.Abort() } }                                            -- LAbortSwap, then Close
 
      // transport.go
-     func (trans *Transport) getConn(ctx) (conn, err) {                                          -- LGetConn / LDialFail
+     func (trans *Transport) getConn(ctx) (conn, err) {                          -- LGetConn (pooled) / LDial / LDialFail
          RLock; if conn = trans.conns[key]; conn != nil { return }; RUnlock
          Lock; defer Unlock; if conn = trans.conns[key]; conn != nil { return }
          conn, err = newConn(ctx, ...); if err != nil { return }
@@ -30,7 +30,7 @@
          for _, conn := range conns { conn.Close(core.ErrClosed) } }                             -- aborter: ECloseSock, EClean
 
      func (c *conn) Transport(ctx, request) (response, err) {
-         index := int(atomic.AddInt32(&c.counter, 1) & MASK)                                     -- (part of LGetConn)
+         index := int(atomic.AddInt32(&c.counter, 1) & MASK)                                     -- (part of LGetConn / LDial)
          resultChan := make(chan data, 1)
          c.store(index, resultChan)                                                              -- LStore
          select { case <-ctx.Done(): c.delete(index); return nil, ctx.Err()                      -- LCancelDel
@@ -39,7 +39,7 @@
          select { case <-ctx.Done(): c.delete(index); return nil, ctx.Err()                      -- LCancelDel
                   case res := <-resultChan: return res.Body, res.Error } }                       -- LTake
      func (c *conn) Send(ctx, onExit) {
-         var err error; defer func() { c.Exit(onExit, err) }()
+         var err error; defer func() { /* recover */ c.Exit(onExit, err) }()     // panics are not modelled here (C11)
          for { select { case <-ctx.Done(): return                                                -- LSendCtx
                         case request := <-c.requests:                                            -- (LEnqueue)
                             if err = c.send(request); err != nil { return } } } }                -- LSendOk / LSendFail
@@ -49,7 +49,6 @@
                         default: if err = c.receive(); err != nil { return } } } }               -- LRecvPoll; LRecvReply / LRecvFail
      func (c *conn) Exit(onExit, err) {
          onExit()                                                                                -- LOnExit
-         if e := recover(); e != nil { err = NewPanicError(e) }      // ineffective (C11); panics are not modelled here
          if err != nil { c.Close(err) } }
      func (c *conn) Close(err) {
          c.once.Do(func() { c.onClose(c.Conn); _ = c.Conn.Close() })                             -- LCloseSock
@@ -64,8 +63,9 @@
    sends of rangeAndClean go to channels of capacity one that nobody else sends to; they are
    merged with the critical section that took the entries (a caller that looks at its channel
    between the two sees it empty, which is the same as looking before the critical section).
-   getConn and the AddInt32 that follows are merged into LGetConn: nothing but the order of
-   index allocation could tell them apart.
+   getConn and the AddInt32 that follows are merged into one step (LGetConn when a pooled connection
+   is found, LDial when a new one is dialled and its Send and Receive are started): nothing but the
+   order of index allocation could tell them apart.
 
    Environment: the peer answers any index at any time (LPeerReply), or is gone (LPeerGone: it
    closed or reset the connection, or sent something that makes the next read fail: garbage, a
